@@ -406,6 +406,68 @@ fn probe<C: Suite, T: SecretBearing<C>>(ctx: &mut Ctx, vals: &[T]) {
     }
 }
 
+/// Values that a library function takes *by value* are dropped inside the library. The heap blocks such a value owned
+/// when it was handed over are followed individually (other blocks freed meanwhile — temporaries — are not judged):
+/// the first time each of them is freed it must not hold a secret any more. Covers the success path and early error
+/// returns of `dkg::part2` and `refresh::refresh_dkg_part2`, which consume the round-one secret package.
+fn consumed<C: Suite>(ctx: &mut Ctx, run: &DkgRun<C>, ids: &[Identifier<C>], n: u16, t: u16, rng: &mut crate::rng::TraceRng) {
+    use frost_core::keys::{dkg, refresh};
+    let profile = ctx.notes.get("profile").and_then(|v| v.as_str()).unwrap_or("?").to_string();
+    let me = ids[0];
+    let mut full = run.r1_pkgs.clone();
+    full.remove(&me);
+    let mut few = full.clone();
+    let k0 = *few.keys().next().unwrap();
+    few.remove(&k0);
+    let mut own = full.clone();
+    own.insert(me, run.r1_pkgs[&me].clone());
+    let refresh_sec = refresh::refresh_dkg_part1::<C, _>(me, n, t, &mut *rng).ok().map(|x| x.0);
+    let mut refresh_inbox = BTreeMap::new();
+    for id in ids.iter().filter(|i| **i != me) {
+        if let Ok((_, pk)) = refresh::refresh_dkg_part1::<C, _>(*id, n, t, &mut *rng) {
+            refresh_inbox.insert(*id, pk);
+        }
+    }
+    let cases: Vec<(&str, &str)> = vec![("dkg::part2", "ok"), ("dkg::part2", "too-few-packages"), ("dkg::part2", "own-identifier-included"), ("refresh_dkg_part2", "ok"), ("refresh_dkg_part2", "too-few-packages")];
+    for (func, variant) in cases {
+        let src: &d1::SecretPackage<C> = if func == "dkg::part2" { &run.r1_secret[&me] } else { match &refresh_sec { Some(s) => s, None => continue } };
+        let secrets = src.secrets();
+        am::reset_tracking();
+        am::set_mode(am::TRACK);
+        let c = src.clone();
+        am::set_mode(am::OFF);
+        let (tr, tn) = am::tracked();
+        if register::<C>(&secrets) == 0 {
+            continue;
+        }
+        am::reset_hits();
+        am::set_mode(am::ARMED);
+        let r = match (func, variant) {
+            ("dkg::part2", "ok") => dkg::part2::<C>(c, &full).map(|_| ()),
+            ("dkg::part2", "too-few-packages") => dkg::part2::<C>(c, &few).map(|_| ()),
+            ("dkg::part2", _) => dkg::part2::<C>(c, &own).map(|_| ()),
+            (_, "ok") => refresh::refresh_dkg_part2::<C>(c, &refresh_inbox).map(|_| ()),
+            _ => refresh::refresh_dkg_part2::<C>(c, &BTreeMap::new()).map(|_| ()),
+        };
+        am::set_mode(am::OFF);
+        let mut missing = 0;
+        for &(p, l) in tr.iter().take(tn) {
+            match am::first_free_of(p) {
+                Some(true) => ctx.viol("consumed-value-leaves-secret", &format!("{func}/{variant}"), json!({"type": "dkg::round1::SecretPackage", "profile": profile, "function": func, "path": variant,
+                    "returned_ok": r.is_ok(), "block_size": l, "what": "a heap block the secret package owned when it was handed to the library was freed still holding a coefficient"})),
+                Some(false) => ctx.count("consumed_owned_blocks_clean"),
+                None => missing += 1,
+            }
+        }
+        if missing > 0 {
+            ctx.count("conservation_missing_blocks");
+        }
+        am::clear_patterns();
+        ctx.count("consumptions_checked");
+        ctx.class(format!("{profile}/consumed/{func}/{variant}"));
+    }
+}
+
 pub fn run<C: Suite>(ctx: &mut Ctx) {
     let profile = std::env::var("FV_PROFILE_NAME").unwrap_or("unknown".to_string());
     ctx.note("profile", json!(profile));
@@ -434,6 +496,24 @@ pub fn run<C: Suite>(ctx: &mut Ctx) {
         if am::hits() > 0 {
             ctx.count("control_leaky_heap_reported");
         }
+        // per-block attribution: a consumer that takes the vector out of the value and frees it unwiped
+        fn eat<C: Suite>(v: LeakyVec<C>) {
+            let inner = v.0;
+            let copy = inner.clone(); // an unrelated temporary holding the same bytes
+            drop(copy);
+            drop(inner);
+        }
+        am::reset_tracking();
+        am::set_mode(am::TRACK);
+        let lv = LeakyVec::<C>(vec![s, s + one::<C>(), s]);
+        am::set_mode(am::OFF);
+        let (tr, tn) = am::tracked();
+        am::set_mode(am::ARMED);
+        eat::<C>(lv);
+        am::set_mode(am::OFF);
+        if tn >= 1 && am::first_free_of(tr[0].0) == Some(true) {
+            ctx.count("control_consumed_block_reported");
+        }
         am::clear_patterns();
     }
     for rep in 0..reps {
@@ -461,6 +541,7 @@ pub fn run<C: Suite>(ctx: &mut Ctx) {
         probe::<C, _>(ctx, &[run.r1_secret[&id0].clone()]);
         probe::<C, _>(ctx, &[run.r2_secret[&id0].clone()]);
         probe::<C, _>(ctx, &[run.r2_pkgs[&id0].values().next().unwrap().clone()]);
+        consumed::<C>(ctx, &run, &ids, n, t, &mut rng);
         ctx.count("value_sets");
     }
     let (b, by) = am::scanned();
